@@ -224,8 +224,8 @@ def emit_bare(o, n, path, extra):
     return (start, o.n)
 
 
-def render_module(stmts, style=0, extra_parens=()):
-    """returns (text, map).  map: path key -> {"span", "name"?, "qual"?}"""
+def render_module(stmts, style=0, extra_parens=(), spell=None):
+    """returns (text, map).  map: path key -> {"span", "name"?, "qual"?}; spell(name) gives the path an import is written with"""
     o = Out(style)
     extra = set(extra_parens)
     for si, st in enumerate(stmts):
@@ -235,7 +235,7 @@ def render_module(stmts, style=0, extra_parens=()):
             o.raw("\r\n" if style == 3 else "\n")
         if st["k"] == "use":
             s0 = o.token("use")
-            o.token('"%s"' % st.get("spelling", st["s"] + ".oal"))
+            o.token('"%s"' % st.get("spelling", spell(st["s"]) if spell else st["s"] + ".oal"))
             if st["q"]:
                 o.token("as")
                 q = o.token(st["q"])
@@ -267,12 +267,19 @@ def render_module(stmts, style=0, extra_parens=()):
     return "".join(o.parts), o.map
 
 
-def render_program(prog, style=0, extra_parens=None, base="file:///w/"):
-    """prog: {"main": name, "mods": {name: [stmts]}} -> {"main": url, "files": {url: text}, "maps": {name: map}}"""
+def render_program(prog, style=0, extra_parens=None, base="file:///w/", layout=None):
+    """prog: {"main": name, "mods": {name: [stmts]}} -> {"main": url, "files": {url: text}, "maps": {name: map}, "urls": {name: url}}
+    layout: module name -> path stem below the base (default: the name); imports are written relative to the importing module"""
+    import posixpath
     files = {}
     maps = {}
+    stem = {name: (layout or {}).get(name, name) for name in prog["mods"]}
     for name, stmts in prog["mods"].items():
-        text, mp = render_module(stmts, style, (extra_parens or {}).get(name, ()))
-        files[base + name + ".oal"] = text
+        here = posixpath.dirname(stem[name])
+
+        def spell(target, here=here):
+            return posixpath.relpath(stem.get(target, target) + ".oal", here or ".")
+        text, mp = render_module(stmts, style, (extra_parens or {}).get(name, ()), spell if layout else None)
+        files[base + stem[name] + ".oal"] = text
         maps[name] = mp
-    return {"main": base + prog["main"] + ".oal", "files": files, "maps": maps}
+    return {"main": base + stem[prog["main"]] + ".oal", "files": files, "maps": maps, "urls": {n: base + stem[n] + ".oal" for n in stem}}
